@@ -61,13 +61,18 @@ def rule_prologue_trailer(check):
     if len(vp) != 1:
         raise AnchorMissing("BlockTransformVisitor::visit_mut_program")
     f = vp[0]
-    ins = [n for n in hir.calls_in(f.body, name="insert") if (hir.place(hir.call_args(n)[0]) or "").endswith(".body")]
-    check.floor(R, "prologue insertions", len(ins), 2)
-    for n in ins:
-        atoms = gate.atoms_at(f, n)
+    # role-based: every read of Config.file_prefix_code (the statements of the prologue) in the visitors
+    reads = []
+    for g in prog.user_fns:
+        for n in g.nodes():
+            if n.get("k") == "Field" and n.get("field") == "file_prefix_code" and "Config" in (n.get("base_ty") or ""):
+                reads.append((g, n))
+    check.floor(R, "reads of the prologue statements (Config.file_prefix_code)", len(reads), 1)
+    for i, (g, n) in enumerate(reads):
+        atoms = gate.atoms_at(g, n)
         ok = gate.has_eq_gate(atoms, ".transform_status.status", "Status::Modified") or gate.has_variant_gate(atoms, "Status::Modified", ".status")
         v = [a[2].split("::")[-1] for a in atoms if a[0] == "variant" and a[3] is True and isinstance(a[2], str) and "Program::" in a[2]]
-        check.expect(ok, R, "%s/prologue/%s" % (R, v[0] if v else "?"), hir.loc(n), "prologue inserted under status == Modified", "prologue insertion is not guarded by status == Modified")
+        check.expect(ok and g is f, R, "%s/prologue/%s" % (R, v[0] if v else g.name), hir.loc(n), "prologue statements are read (for insertion) under status == Modified", "the prologue statements are used in %s without a status == Modified guard" % g.name)
     pj = prog.fn("rewriter::print_js")
     fmts = [n for n in hir.walk(pj.body) if n.get("exp") and (n.get("macro") or "").endswith("format")]
     tr_nodes = [n for n in hir.walk(pj.body) if n.get("k") == "Lit" and n["lit"]["t"] == "str" and "application/json;base64" in str(n["lit"]["v"])]
